@@ -267,6 +267,8 @@ func checkC08(res *Result) {
 	res.Count("read-modify-write pairs", n2, 8)
 	res.Count("Lock call sites", lr.nLock, 20)
 	checkC08Dup(res, p)
+	res.Rule("C08-R5", "error discipline on the duplicate gate (addToInboxIfNew, sideEffectActor.PostInbox, InboxForwarding): a Database failure while recording the id is propagated, never swallowed into 'new, no error' (else side effects run although the id was not recorded, and run again on redelivery)")
+	addErrFlowObligations(res, p, computeEffects(p), "C08-R5", []string{"sideEffectActor.addToInboxIfNew", "sideEffectActor.PostInbox", "sideEffectActor.InboxForwarding"}, true)
 	res.Extra["application_calls_under_lock"] = lr.appCalls
 	res.Assumptions = append(res.Assumptions,
 		"Database.Lock/Unlock give mutual exclusion per id (stated in the property)",
